@@ -895,6 +895,44 @@ func (in *semit) exec(st *sstate, s ast.Stmt) ([]sout, error) {
 		}
 		return m, nil
 	case *ast.SwitchStmt:
+		if x.Init == nil && x.Tag == nil {
+			// switch { case c1: … case c2: … default: … }: an if/else-if chain
+			var def *ast.CaseClause
+			var clauses []*ast.CaseClause
+			for _, cc := range x.Body.List {
+				cl := cc.(*ast.CaseClause)
+				if cl.List == nil {
+					def = cl
+				} else {
+					clauses = append(clauses, cl)
+				}
+				for _, bs := range cl.Body {
+					if br, ok := bs.(*ast.BranchStmt); ok && br.Tok == token.FALLTHROUGH {
+						return nil, serr(bs, "fallthrough")
+					}
+				}
+			}
+			var chain ast.Stmt
+			if def != nil {
+				chain = &ast.BlockStmt{List: def.Body}
+			}
+			for i := len(clauses) - 1; i >= 0; i-- {
+				cl := clauses[i]
+				cond := cl.List[0]
+				for _, e := range cl.List[1:] {
+					cond = &ast.BinaryExpr{X: cond, Op: token.LOR, Y: e}
+				}
+				chain = &ast.IfStmt{If: cl.Pos(), Cond: cond, Body: &ast.BlockStmt{List: cl.Body}, Else: chain}
+			}
+			if chain == nil {
+				return next()
+			}
+			outs, err := in.exec(st, chain)
+			if err != nil {
+				return nil, err
+			}
+			return unbreak(outs), nil
+		}
 		if x.Init != nil || x.Tag == nil {
 			return nil, serr(s, "switch form outside the emitter language")
 		}
